@@ -100,6 +100,26 @@ pub fn build_ip(src: &[u8], dst: &[u8], proto: u8, payload: &[u8]) -> Vec<u8> {
         p
     }
 }
+/// IPv4 packet with `opts` (length a multiple of 4, at most 40) in the header
+pub fn build_ip4_opts(src: &[u8], dst: &[u8], proto: u8, opts: &[u8], payload: &[u8]) -> Vec<u8> {
+    assert!(src.len() == 4 && opts.len() % 4 == 0 && opts.len() <= 40);
+    let hl = 20 + opts.len();
+    let tl = hl + payload.len();
+    let mut p = vec![0u8; tl];
+    p[0] = 0x40 | (hl / 4) as u8;
+    put16(&mut p[2..4], tl as u16);
+    put16(&mut p[4..6], 0x1c46);
+    p[6] = 0x40;
+    p[8] = 64;
+    p[9] = proto;
+    p[12..16].copy_from_slice(src);
+    p[16..20].copy_from_slice(dst);
+    p[20..hl].copy_from_slice(opts);
+    let c = !ref_sum(&p[..hl]);
+    put16(&mut p[10..12], c);
+    p[hl..].copy_from_slice(payload);
+    p
+}
 pub fn set_hop_limit(ip: &mut [u8], h: u8) {
     if ip[0] >> 4 == 4 {
         ip[8] = h;
